@@ -1,6 +1,7 @@
 import Zog.Props.FactsOK
 import Zog.Laws
 import Zog.Coerce
+import Zog.Placed
 
 /-!
 # C03 — on success the destination holds the documented coercion of the input
@@ -105,5 +106,79 @@ theorem coercer_selected (env : Env) (p : Prim) (path : List String) (v : Val) (
     (prim env .parse p path v d st).1 = x := by
   unfold prim primBody tested
   simp only [Engine.primAbsent, hpres, Bool.false_eq_true, ↓reduceIte, hco, hc, hp, runPosts_nil]
+
+/-! ## the whole tree -/
+
+/-- **C03 at every depth.**  For every PostTransform-free well-formed schema: when Parse reports no
+    issue the destination is `Spec.Placed` — leaf = coercion of the input at the corresponding key or
+    index (or the Default of an absent leaf, or the Catch value), slice length and order = the
+    input's, absent optional nodes untouched, present pointers allocated, unnamed fields not written.
+    (PostTransforms rewrite the destination by design, hence `postFree`.) -/
+theorem clean_parse_is_placed (env : Env) (s : Schema) (hp : s.postFree = true) (hw : s.WF)
+    (tag : Option String) (v : Val) (d : DVal)
+    (h : (Engine.run env Gen.facts .parse s tag v d).2.sink = []) :
+    Placed s tag v d (Engine.run env Gen.facts .parse s tag v d).1 := by
+  rw [engine_is_spec] at h ⊢
+  exact placed_of_clean env s hp hw tag [] v d h
+
+/-! what `Placed` says, read back node kind by node kind -/
+
+/-- a present leaf without Catch holds exactly the coercion of its input -/
+theorem placed_leaf_present (p : Prim) (tag : Option String) (v : Val) (d out : DVal) (hc : p.ctch = none)
+    (hv : isParseZero v = false) (h : Placed (.prim p) tag v d out) : p.coerce v = some out := by
+  simp only [Placed, PrimPlaced, hc, hv, Bool.false_eq_true, false_and, false_or, true_and, reduceCtorEq] at h
+  exact h
+
+/-- an absent optional leaf without Default or Catch is left untouched -/
+theorem placed_leaf_absent (p : Prim) (tag : Option String) (v : Val) (d out : DVal) (hc : p.ctch = none) (hd : p.dflt = none)
+    (hv : isParseZero v = true) (h : Placed (.prim p) tag v d out) : out = d := by
+  simp only [Placed, PrimPlaced, hc, hd, hv, Bool.true_eq_false, false_and, or_false, false_or, true_and, reduceCtorEq] at h
+  exact h.2
+
+/-- slices: the destination has the input's length, element i is placed from input element i -/
+theorem placed_slice (elem : Schema) (sm : SliceMods) (tag : Option String) (v : Val) (d out : DVal) (xs : List Val)
+    (hv : isParseZero v = false) (hco : sm.coerce v = some xs) (h : Placed (.slice elem sm) tag v d out) :
+    ∃ outs, out = .slice outs ∧ outs.length = xs.length ∧ ∀ x ∈ xs.zip outs, Placed elem none x.1 sm.zeroElem x.2 := by
+  simp only [Placed, sliceSrc, hv, Bool.false_eq_true, ↓reduceIte, hco] at h
+  exact h
+
+/-- pointers: absent input leaves the pointer as it was (nil stays nil); present input allocates -/
+theorem placed_ptr_absent (elem : Schema) (zp : DVal) (nn : Option Test) (tag : Option String) (v : Val) (d out : DVal)
+    (hv : isParseZero v = true) (h : Placed (.ptr elem zp nn) tag v d out) : out = d := by
+  simp only [Placed, hv, ↓reduceIte] at h
+  exact h.1
+
+theorem placed_ptr_present (elem : Schema) (zp : DVal) (nn : Option Test) (tag : Option String) (v : Val) (d out : DVal)
+    (hv : isParseZero v = false) (h : Placed (.ptr elem zp nn) tag v d out) :
+    ∃ o, out = .ptr (some o) ∧ Placed elem tag v (d.pointee zp) o := by
+  simp only [Placed, hv, Bool.false_eq_true, ↓reduceIte] at h
+  exact h
+
+/-- structs: fields the schema does not name are never written, and no field appears or disappears -/
+theorem placed_struct_frame (fs : Fields) (tests : List Test) (posts : List Post) (tag : Option String) (v : Val) (d out : DVal)
+    (h : Placed (.struct fs tests posts) tag v d out) :
+    (∀ n, n ∉ fs.goNames → out.get n = d.get n) ∧ (∀ n, out.has n = d.has n) := by
+  simp only [Placed] at h
+  obtain ⟨_, _, h1, h2, _⟩ := h
+  exact ⟨h1, h2⟩
+
+/-! non-vacuity: a clean nested Parse exists (struct with a string leaf, a slice of ints, a pointer) -/
+section witness
+def strP : Prim := { kind := .str, coerce := fun v => match v with | .str s => some (.str s) | _ => none }
+def intP : Prim := { kind := .num .int, coerce := fun v => match v with | .int _ n => some (.int .int n) | _ => none }
+def sliceM : SliceMods := { coerce := fun v => match v with | .list xs => some xs | _ => none, zeroElem := .int .int 0 }
+def wS : Schema := .struct
+  (.cons "name" ⟨"Name", []⟩ (.prim strP)
+    (.cons "tags" ⟨"Tags", []⟩ (.slice (.prim intP) sliceM)
+      (.cons "on" ⟨"On", []⟩ (.ptr (.prim intP) (.int .int 0) none) .nil))) [] []
+def wV : Val := .obj [("name", .str "x"), ("tags", .list [.int .int 3, .int .int 4])]
+def wD0 : DVal := .struct [("Name", .str ""), ("Tags", .slice []), ("On", .ptr none), ("Extra", .int .int 7)]
+
+example : (Spec.run ⟨fun _ _ _ => "m", fun _ => []⟩ .parse wS none wV wD0).2.sink = [] ∧
+    (Spec.run ⟨fun _ _ _ => "m", fun _ => []⟩ .parse wS none wV wD0).1 =
+      .struct [("Name", .str "x"), ("Tags", .slice [.int .int 3, .int .int 4]), ("On", .ptr none), ("Extra", .int .int 7)] :=
+  ⟨by decide, by rfl⟩
+example : wS.postFree = true := by decide
+end witness
 
 end Zog.Props.C03
